@@ -1822,3 +1822,141 @@ Proof.
     exists [out]. split; [eapply PC_last; exact EP|]. cbn [concat]. rewrite app_nil_r, A1. exact L1.
 Qed.
 End ParseRequest.
+
+(* ------------------------------------------------------------------------------------------ *)
+(* Part 8: initial states, examples, counterexamples                                            *)
+(* ------------------------------------------------------------------------------------------ *)
+
+(* the states in which a Request starts satisfy the invariant *)
+Lemma new_sparser_pinv bs r : pinv (new_sparser bs r).
+Proof.
+  destruct (new_sparser_init bs r) as [HRI HA]. split; [exact HRI|]. rewrite HA.
+  unfold a_inv, a_ok. cbn [a_B a_space a_parsed a_raw a_prem a_pad a_st a_stream]. change (len (@nil N)) with 0.
+  split; [lia|]. split; [lia|]. split; [lia|]. split; [constructor|]. split; [discriminate|].
+  destruct (next_input_stream (r_role r) None) as [e|] eqn:E; [apply (next_is_input _ _ _ E)|exact I].
+Qed.
+
+Lemma into_stream_parser_pinv rp r0 p0 : st rp = Done r0 -> len (held rp) <= cap rp -> bytes_ok (held rp) ->
+  into_stream_parser rp = inl p0 -> pinv p0.
+Proof.
+  intros Hst Hl Hb E. destruct (into_stream_parser_init rp r0 Hst Hl) as (p1 & E1 & HRI & HA).
+  rewrite E in E1. injection E1 as <-. split; [exact HRI|]. rewrite HA.
+  unfold a_inv, a_ok. cbn [a_B a_space a_parsed a_raw a_prem a_pad a_st a_stream]. change (len (@nil N)) with 0.
+  split; [lia|]. split; [lia|]. split; [lia|]. split; [exact Hb|]. split; [discriminate|].
+  destruct (next_input_stream (r_role r0) None) as [e|] eqn:En; [apply (next_is_input _ _ _ En)|exact I].
+Qed.
+
+(* item 3: Request::new opens the gate exactly for roles with at most one input stream, and then the stream the
+   request starts on is the role's final stream *)
+Lemma request_new_gate role : (len (role_input_streams role) <=? 1) = true ->
+  next_input_stream role (next_input_stream role None) = None.
+Proof.
+  destruct (role_cases role) as [->|[->|[->|[E Hn]]]]; try (vm_compute; intros H; first [reflexivity|discriminate H]).
+  intros _. apply Hn.
+Qed.
+
+Definition ex_w (b : bytes) : world := mkW [] [] [(0, 0, b)] [] 0 1 0 false false [].
+Definition ex_resp : sp := new_sparser 64 (mkReq 1 ROLE_Responder 0 []).
+Definition ex_filt : sp := new_sparser 64 (mkReq 1 ROLE_Filter 0 []).
+(* Stdin "abc" (5 bytes padding), then AbortRequest, in one segment *)
+Definition ex_stdin_abort : bytes := [1;5;0;1;0;3;5;0; 97;98;99; 0;0;0;0;0] ++ [1;2;0;1;0;0;0;0].
+(* Data "xy" (6 bytes padding), then AbortRequest *)
+Definition ex_data_abort : bytes := [1;8;0;1;0;2;6;0; 120;121; 0;0;0;0;0;0] ++ [1;2;0;1;0;0;0;0].
+(* Stdin "abcde", GetValues FCGI_MAX_CONNS, Stdin end, Data "xy", Data end *)
+Definition ex_two_streams : bytes :=
+  [1;5;0;1;0;5;3;0; 97;98;99;100;101; 0;0;0] ++
+  [1;9;0;0;0;16;0;0; 14;0; 70;67;71;73;95;77;65;88;95;67;79;78;78;83] ++
+  [1;5;0;1;0;0;0;0] ++ [1;8;0;1;0;2;6;0; 120;121; 0;0;0;0;0;0] ++ [1;8;0;1;0;0;0;0].
+
+Example ex_hyps : pinv ex_resp /\ pinv ex_filt /\ bytes_ok (remaining (ex_w ex_two_streams)) /\
+  rd_only [1; 2; 1; 2; 3; 1; 2] /\ rd_script [1; 2; 2; 4; 8; 5; 2].
+Proof.
+  split; [apply new_sparser_pinv|]. split; [apply new_sparser_pinv|].
+  split; [apply bytes_okb_ok; vm_compute; reflexivity|]. split; repeat constructor.
+Qed.
+
+(* COUNTEREXAMPLE to "K a (remaining w) = K a' (remaining w') for errors": a read into a 10-byte buffer meets
+   Stdin "abc" and an AbortRequest in the same parse call: the call fails with Aborted after the three bytes were
+   copied into the caller's buffer; they are gone (K drops from "abc" to nothing, nothing was delivered).
+   [poll_input_reads] accounts for them as [dl] with len dl <= c. *)
+Example ex_lost_bytes :
+  let r := mkR ex_resp true false in let w := ex_w ex_stdin_abort in
+  match poll_input 10 50 (Some 10) r w with
+  | (PReady (inr k), r', w') => k = EK_Aborted /\ K (abs (rsp r)) (remaining w) = [97; 98; 99] /\
+                                K (abs (rsp r')) (remaining w') = [] /\ remaining w' = []
+  | _ => False
+  end.
+Proof. vm_compute. repeat split; reflexivity. Qed.
+
+(* COUNTEREXAMPLE to "do_writeable = Ok(None) implies writeable": a Filter handler selects Data (the final
+   stream), fill_buf() meets Data "xy" and an AbortRequest in one parse call and fails with Aborted, leaving "xy"
+   in the stream buffer and the gate closed; then writeable() returns Ok(()) and is_writeable() is still false
+   (in the crate: a following output_stream() panics on its assertion).  See [do_writeable_gate], [do_writeable_stale]. *)
+Example ex_writeable_stale :
+  match run_handler 10 10 [4; 8; 3; 0] (mkR ex_filt false false) (ex_w ex_data_abort) with
+  | Ok (_, r1) w1 =>
+      rwriteable r1 = false /\ stream (rsp r1) = last_opt ROLE_Filter /\ stream_buffer (rsp r1) = [120; 121] /\
+      events w1 = [[8]; []; [3; 0; EK_Aborted]; [4; 8]] /\
+      match do_writeable 10 r1 w1 with
+      | Ok (None, r2) _ => rwriteable r2 = false
+      | _ => False
+      end
+  | _ => False
+  end.
+Proof. vm_compute. repeat split; reflexivity. Qed.
+
+(* a run in which the statements are about something: two reads of 2 bytes, the rest by read_to_end (the reply to
+   GetValues is written on the way), then Data selected and read: each epoch delivers exactly its stream *)
+Example ex_epochs :
+  match run_handler 10 20 [1; 2; 1; 2; 2; 4; 8; 5; 2] (mkR ex_filt false false) (ex_w ex_two_streams) with
+  | Ok (_, r') w' =>
+      rev (events w') = [[1; 1; 2]; [97; 98]; [1; 1; 2]; [99; 100]; [2; 0]; [101]; [4; 8]; [5; 0; 1; 8]; [2; 0]; [120; 121]; [8]] /\
+      rwriteable r' = true /\ len (wlog w') = 32 /\
+      K (abs ex_filt) ex_two_streams = [97; 98; 99; 100; 101] /\ F (Some RT_Data) (abs ex_filt) ex_two_streams = [120; 121]
+  | _ => False
+  end.
+Proof. vm_compute. repeat split; reflexivity. Qed.
+
+(* end of file persists, and a zero-length read says nothing *)
+Example ex_eof :
+  match run_handler 10 20 [2; 1; 4; 1; 0; 1; 7] (mkR ex_resp true false) (ex_w ex_two_streams) with
+  | Ok (_, r') w' =>
+      rev (events w') = [[2; 0]; [97; 98; 99; 100; 101]; [1; 1; 0]; []; [1; 1; 0]; []; [1; 1; 0]; []; [8]] /\
+      at_term (abs (rsp r')) = true
+  | _ => False
+  end.
+Proof. vm_compute. repeat split; reflexivity. Qed.
+
+Print Assumptions t_poll_read_rem.
+Print Assumptions await_read_rem.
+Print Assumptions sparse_step.
+Print Assumptions input_loop_reads.
+Print Assumptions poll_input_reads.
+Print Assumptions poll_input_zero.
+Print Assumptions await_input_reads.
+Print Assumptions poll_input_block.
+Print Assumptions await_input_deadlock.
+Print Assumptions poll_input_sticky.
+Print Assumptions poll_input_eof.
+Print Assumptions poll_input_zero_is_eof.
+Print Assumptions poll_input_aborted.
+Print Assumptions boundary_loop_abort.
+Print Assumptions record_boundary_at_err.
+Print Assumptions set_stream_step.
+Print Assumptions do_writeable_gate.
+Print Assumptions do_writeable_stale.
+Print Assumptions read_all_reads.
+Print Assumptions read_all_complete.
+Print Assumptions run_handler_reads.
+Print Assumptions run_handler_read_only.
+Print Assumptions run_handler_reads_top.
+Print Assumptions tlaw_two_epochs.
+Print Assumptions poll_input_rinv.
+Print Assumptions await_input_rinv.
+Print Assumptions boundary_loop_deadlock.
+Print Assumptions parse_request_iter.
+Print Assumptions parse_request_read_after_flush.
+Print Assumptions parse_request_deadlock.
+Print Assumptions new_sparser_pinv.
+Print Assumptions into_stream_parser_pinv.
+Print Assumptions request_new_gate.
